@@ -20,6 +20,7 @@ import trio
 import trio._core._io_epoll as trio_epoll
 import trio._core._run as trio_run_module
 import trio._threads as trio_threads
+from trio._core._entry_queue import TrioToken
 
 from . import sched as S
 
@@ -39,6 +40,7 @@ REAL = {
     "Deadlines.add": trio_run_module.Deadlines.add,
     "_global_shutdown_lock": cf_thread._global_shutdown_lock,
     "excepthook": threading.excepthook,
+    "run_sync_soon": TrioToken.run_sync_soon,
 }
 
 
@@ -181,6 +183,13 @@ def _deadlines_add(self, deadline, cancel_scope):
     self._active += 1
 
 
+def _run_sync_soon(self, sync_fn, *args, idempotent=False):
+    sched = S.ACTIVE
+    if sched is not None and sched.me() is not None:
+        sched.point("trio-run_sync_soon")
+    return REAL["run_sync_soon"](self, sync_fn, *args, idempotent=idempotent)
+
+
 def _send_message_to_trio(trio_token, message_to_trio):
     sched = S.ACTIVE
     if sched is not None and sched.me() is not None:
@@ -320,6 +329,7 @@ def install(scheduler: S.Scheduler):
     _deadline_counter[0] = 0
     S.AThread._cosched_counter[0] = 0
     trio_threads._send_message_to_trio = _send_message_to_trio
+    TrioToken.run_sync_soon = _run_sync_soon
     threading.excepthook = lambda args: None
     asyncio.set_event_loop_policy(VPolicy())
     S.ACTIVE = scheduler
@@ -341,6 +351,7 @@ def uninstall():
     trio_run_module._ALLOW_DETERMINISTIC_SCHEDULING = REAL["_ALLOW_DETERMINISTIC_SCHEDULING"]
     trio_run_module.Deadlines.add = REAL["Deadlines.add"]
     trio_threads._send_message_to_trio = REAL["_send_message_to_trio"]
+    TrioToken.run_sync_soon = REAL["run_sync_soon"]
     threading.excepthook = REAL["excepthook"]
     asyncio.set_event_loop_policy(None)
     gc.enable()
